@@ -297,9 +297,14 @@ func (c *Ctx) c07Compare(t *c07Type, skip map[string]string) (decided bool, prob
 		return false, nil, nil, 0
 	}
 	// ---- writer places per path, and what each explained byte position holds
+	type wconst struct {
+		off, ln symLin
+		desc    string
+	}
 	type wpath struct {
 		places []c07Place
 		va     map[string]string // "off|width" -> "$Field" or "len(F)"
+		consts []wconst          // constant bytes the encoder writes (reserved bytes, or a field normalised away on this path)
 	}
 	var wpaths []wpath
 	for _, w := range t.writer {
@@ -317,6 +322,10 @@ func (c *Ctx) c07Compare(t *c07Type, skip map[string]string) (decided bool, prob
 			}
 			if m := lenByteRe.FindStringSubmatch(g.Desc); m != nil && okLen {
 				wp.va[off.String()+"|"+ln.String()] = "len(" + m[2] + ")"
+				continue
+			}
+			if constSegRe.MatchString(g.Desc) && okLen {
+				wp.consts = append(wp.consts, wconst{off, ln, g.Desc})
 				continue
 			}
 			form, field := "", ""
@@ -514,9 +523,25 @@ func (c *Ctx) c07Compare(t *c07Type, skip map[string]string) (decided bool, prob
 			}
 		}
 	}
+	// a constant written where the parser reads a field: on that path the field's value is not encoded at all
+	for _, wp := range wpaths {
+		for _, k := range wp.consts {
+			ko, kl := subst(k.off).String(), subst(k.ln).String()
+			for f, rps := range rplaces {
+				for _, rp := range rps {
+					if rp.off.String() == ko && rp.ln.String() == kl && !rp.toEnd {
+						problems = append(problems, fmt.Sprintf("on one path the encoder writes the constant %s at @%s where the parser reads field %s: the field's value does not survive Encode followed by Parse", k.desc, ko, f))
+					}
+				}
+			}
+		}
+	}
+	problems = dedupe(problems)
 	sort.Strings(problems)
 	return true, problems, assumptions, nFields
 }
+
+var constSegRe = regexp.MustCompile(`^u(8|16be|32be|64be)\((-?[0-9]+)\)$`)
 
 // c07Agree: some reader place is the inverse reading of the writer place.
 func c07Agree(w c07Place, have map[string]bool) bool {
@@ -700,6 +725,7 @@ func runC07(c *Ctx) {
 	R.Rules["S.codec-helpers"] = "GBK2UTF8 / UTF82GBK return, on every path, what the GBK decoder / encoder produced from the whole argument (no bypass that hands back the input); String2FillingBytes returns exactly `size` bytes on every path; Time2BCD / BCD2Time transcode digits without interpreting them (they call nothing from time / strconv), so the symbolic inverse-pair treatment of BCD time fields holds for fields that are not calendar dates too"
 	var decidedN, notCov int
 	var notCovered []string
+	var decidedNames []string
 	assume := map[string][]string{}
 	for _, t0 := range c.c07Types() {
 		for _, t := range c.c07Variants(t0) {
@@ -754,7 +780,9 @@ func runC07(c *Ctx) {
 			if len(probs) > 0 {
 				st, d = report.Violated, strings.Join(probs, "; ")
 			}
-			R.Add("E3.roundtrip-layout", fmt.Sprintf("%s / %d field placements", name, nf), c.P.RelPos(t.enc.Pos()), st, d)
+			_ = nf
+			decidedNames = append(decidedNames, name)
+			R.Add("E3.roundtrip-layout", name+" / field placements", c.P.RelPos(t.enc.Pos()), st, d)
 			// parser reads only written bytes (constant offsets)
 			var bad []string
 			for ri := range t.readerTerms {
@@ -802,7 +830,24 @@ func runC07(c *Ctx) {
 	R.Notes["types_decided"] = decidedN
 	R.Notes["types_not_covered (body built in a loop / by reflection: lists, parameter tables)"] = notCovered
 	R.Notes["in_domain_assumptions"] = assume
+	// the types decided on the confirmed tree are the reference: one of them dropping out of the comparison (an encoder
+	// that can no longer be taken apart) is an undecided obligation, not a silent loss of coverage
+	var frozen struct {
+		Covered []string `json:"covered"`
+	}
+	wasCovered := map[string]bool{}
+	if c.loadSpec("c07_covered.json", &frozen) {
+		for _, n := range frozen.Covered {
+			wasCovered[n] = true
+		}
+	}
+	sort.Strings(decidedNames)
+	R.Notes["types_decided_names"] = decidedNames
 	for _, n := range notCovered {
+		if wasCovered[n] {
+			R.Add("E3.roundtrip-layout", n+" / field placements", "", report.Undecided, "this type's round trip was decided on the confirmed tree (spec/c07_covered.json); its encoder or parser can no longer be taken apart by the layout extraction, so nothing is known about it now")
+			continue
+		}
 		R.AddInfo("E3.roundtrip-layout", n+" / not covered", "", report.Undecided, "the encoder builds the body in a loop or through helpers the layout extraction does not describe; not claimed")
 	}
 	// ---- helper rules
